@@ -124,6 +124,16 @@ def learn_prune_traces(rep, tier, seed):
                 m.predict(np.vstack([A.copy(), A[::-1] + 0.3]))
             except Exception:
                 pass
+        if i % 3 == 2 and kind == "learn":
+            # ... or it has already LEARNED once, on easy data (perfect validation accuracy): the best of an earlier learn() call
+            # is no candidate of this one
+            meta["history"] = "learn(easy data) before"
+            try:
+                ye_ = np.array([j % 2 for j in range(8)])
+                Xe_ = np.random.default_rng(5).normal(size=(8, Xt.shape[1])) * 0.05 + 20.0 * ye_[:, None]
+                m.learn(Xe_.copy(), ye_.copy(), Xe_[:4].copy() + 0.01, ye_[:4].copy(), n_iterations=2)
+            except Exception:
+                pass
         g.opf_accuracy = acc_w
         SupervisedOPF.fit, SupervisedOPF.predict = fit_w, predict_w
         init = {"train": rowids(I, A, B), "val": rowids(I, C, D)}
